@@ -14,18 +14,25 @@ Proof. induction k as [|k IH]; intros H i Hi; [lia|]. cbn in H. apply andb_true_
 Lemma ceqb_spec x y : ceqb x y = true -> x = y.
 Proof. unfold ceqb. rewrite andb_true_iff. intros [A B]. apply Qc_eq_bool_correct in A, B. destruct x, y; cbn in *; congruence. Qed.
 
-Lemma pauli2_orthonormal : basis_orthonormal 4 pauli2.
-Proof. assert (H : chk_orthonormal 4 pauli2 = true) by (vm_compute; reflexivity).
-  intros a b Ha Hb. pose proof (alln_spec _ _ (alln_spec _ _ H a Ha) b Hb) as E. apply ceqb_spec in E. rewrite E.
+(* generic soundness of the boolean sweeps (d, B variables: nothing is evaluated when these are type-checked) *)
+Lemma chk_orthonormal_spec d B : chk_orthonormal d B = true -> basis_orthonormal d B.
+Proof. intros H a b Ha Hb. unfold chk_orthonormal in H.
+  pose proof (alln_spec _ _ (alln_spec _ _ H a Ha) b Hb) as E. apply ceqb_spec in E. rewrite E.
   destruct (Nat.eqb a b); reflexivity. Qed.
-Lemma pauli2_hermitian : basis_hermitian 4 pauli2.
-Proof. assert (H : chk_hermitian 4 pauli2 = true) by (vm_compute; reflexivity).
-  intros a Ha i j Hi Hj. exact (ceqb_spec _ _ (alln_spec _ _ (alln_spec _ _ (alln_spec _ _ H a Ha) i Hi) j Hj)). Qed.
-Lemma pauli2_0th : @basis_0th_identity Qc_OF 4 w_sd pauli2.
-Proof. assert (H : chk_0th 4 w_sd pauli2 = true) by (vm_compute; reflexivity).
-  intros i j Hi Hj. pose proof (ceqb_spec _ _ (alln_spec _ _ (alln_spec _ _ H i Hi) j Hj)) as E.
-  change (cmul (CF Qc_OF) (@zof Qc_OF w_sd) (pauli2 0%nat i j)) with (zmul (cq w_sd (q 0 1)) (pauli2 0%nat i j)).
+Lemma chk_hermitian_spec d B : chk_hermitian d B = true -> basis_hermitian d B.
+Proof. intros H a Ha i j Hi Hj. unfold chk_hermitian in H.
+  exact (ceqb_spec _ _ (alln_spec _ _ (alln_spec _ _ (alln_spec _ _ H a Ha) i Hi) j Hj)). Qed.
+Lemma chk_0th_spec d sd B : chk_0th d sd B = true -> @basis_0th_identity Qc_OF d sd B.
+Proof. intros H i j Hi Hj. unfold chk_0th in H.
+  pose proof (ceqb_spec _ _ (alln_spec _ _ (alln_spec _ _ H i Hi) j Hj)) as E.
+  change (cmul (CF Qc_OF) (@zof Qc_OF sd) (B 0%nat i j)) with (zmul (cq sd (q 0 1)) (B 0%nat i j)).
   rewrite E. destruct (Nat.eqb i j); reflexivity. Qed.
+Lemma pauli2_orthonormal_chk : chk_orthonormal 4 pauli2 = true. Proof. vm_compute. reflexivity. Qed.
+Lemma pauli2_hermitian_chk : chk_hermitian 4 pauli2 = true. Proof. vm_compute. reflexivity. Qed.
+Lemma pauli2_0th_chk : chk_0th 4 w_sd pauli2 = true. Proof. vm_compute. reflexivity. Qed.
+Lemma pauli2_orthonormal : basis_orthonormal 4 pauli2. Proof. exact (chk_orthonormal_spec 4 pauli2 pauli2_orthonormal_chk). Qed.
+Lemma pauli2_hermitian : basis_hermitian 4 pauli2. Proof. exact (chk_hermitian_spec 4 pauli2 pauli2_hermitian_chk). Qed.
+Lemma pauli2_0th : @basis_0th_identity Qc_OF 4 w_sd pauli2. Proof. exact (chk_0th_spec 4 w_sd pauli2 pauli2_0th_chk). Qed.
 Lemma w_sd_sq : (w_sd * w_sd = q 4 1)%Qc. Proof. apply Qc_is_canon. vm_compute. reflexivity. Qed.
 
 (* the frozen matrices ARE the HS matrices of the Kraus instruments *)
@@ -88,36 +95,105 @@ Proof. destruct (dist_of_some _ _ _ w_seq_value) as (E1 & H1 & S1 & P1).
 Theorem compose_mprocess_mprocess_fixed_agrees : dist_of (w_left true) = dist_of (w_seq true).
 Proof. now rewrite w_left_fixed_value, w_seq_fixed_value. Qed.
 
-(* ---- post state after a cut *)
-Lemma w_cut_coded : traces_of (w_cut false) = Some [q 199 200; q 0 1].
-Proof. assert (H : match traces_of (w_cut false) with Some l => qcl_eqb l [q 199 200; q 0 1] | None => false end = true) by (vm_compute; reflexivity).
-  destruct (traces_of (w_cut false)); [|discriminate]. now rewrite (qcl_eqb_spec _ _ H). Qed.
-Lemma w_cut_fixed : traces_of (w_cut true) = Some [q 1 1; q 0 1].
-Proof. assert (H : match traces_of (w_cut true) with Some l => qcl_eqb l [q 1 1; q 0 1] | None => false end = true) by (vm_compute; reflexivity).
-  destruct (traces_of (w_cut true)); [|discriminate]. now rewrite (qcl_eqb_spec _ _ H). Qed.
-Lemma w_cut_dist : dist_of (w_cut false) = Some ([2]%nat, [q 1 1; q 0 1]).
-Proof. apply dist_eqb_spec. vm_compute. reflexivity. Qed.
-(* REFUTATION of "normalised post-measurement state" on the faithful model: a retained outcome (probability 1 after the cut)
-   whose post state has trace 199/200 *)
+(* ---- post state after a cut.  [w_cut fix_ps] (Model/C06_Witness.v) IS the call
+   compose2 ... fix_mm:=false fix_ps (QMProc mpZ) (QState 1 w_vec2); no outcome pair MProcess/MProcess occurs, so fix_mm is irrelevant *)
+(* result is an ensemble whose outcome 0 is retained (probability <> 0) and whose post state 0 has trace t *)
+Definition cut_test (t : Qc) (r : mres (qobj QF)) : bool :=
+  match r with
+  | MOk (QEns _ E) =>
+      negb (Qc_eq_bool (nth 0 (d_ps _ (en_dist _ E)) 0%Qc) 0%Qc) &&
+      match en_states _ E with st :: _ => Qc_eq_bool (w_sd * st 0%nat)%Qc t | [] => false end
+  | _ => false
+  end.
+Lemma cut_test_spec t r : cut_test t r = true ->
+  exists E st, r = MOk (QEns _ E) /\ nth 0 (d_ps _ (en_dist _ E)) 0%Qc <> 0%Qc /\ nth_error (en_states _ E) 0 = Some st /\ (w_sd * st 0%nat)%Qc = t.
+Proof. destruct r as [[| | | |E|]|]; cbn [cut_test]; try discriminate. rewrite andb_true_iff. intros [A B].
+  destruct (en_states QF E) as [|st rest] eqn:Es; [discriminate|]. exists E, st. split; [reflexivity|]. split; [|split].
+  - intros C. rewrite C in A. vm_compute in A. discriminate.
+  - now rewrite Es.
+  - now apply Qc_eq_bool_correct. Qed.
+Lemma w_cut_before_fix_test : cut_test (q 199 200) (w_cut false) = true. Proof. vm_compute. reflexivity. Qed.
+Lemma w_cut_code_test : cut_test (q 1 1) (w_cut true) = true. Proof. vm_compute. reflexivity. Qed.
+(* REFUTATION of "normalised post-measurement state" on the model of the code AS IT WAS BEFORE fix
+   compose-mprocess-state-poststate-normalisation: a retained outcome (probability 1 after the cut) whose post state has trace 199/200 *)
 Theorem mprocess_poststate_refuted :
-  exists (M : mproc QF) (s : Z) (v : rvec QF) (E : ensemble QF) (st : rvec QF),
-    w_compose2 false false (QMProc _ M) (QState _ s v) = MOk (QEns _ E) /\
+  exists (E : ensemble QF) (st : rvec QF),
+    w_cut false = MOk (QEns _ E) /\
     nth 0 (d_ps _ (en_dist _ E)) 0%Qc <> 0%Qc /\ nth_error (en_states _ E) 0 = Some st /\ (w_sd * st 0%nat)%Qc <> 1%Qc.
-Proof. destruct (dist_of_some _ _ _ w_cut_dist) as (E & H & S & P).
-  pose proof w_cut_coded as T. unfold traces_of in T. unfold w_cut in H, T. rewrite H in T. injection T as T.
-  destruct (en_states QF E) as [|st rest] eqn:Es; [discriminate|]. cbn [map] in T.
-  apply (f_equal (fun l => hd 0%Qc l)) in T. cbn [hd] in T. rename T into T0.
-  exists mpZ, 1%Z, w_vec2, E, st. split; [exact H|]. split; [|split; [now rewrite Es|]].
-  - rewrite P. cbn [nth]. intros C. apply (f_equal (fun x => Qnum (this x))) in C. vm_compute in C. discriminate.
-  - rewrite T0. intros C. apply (f_equal (fun x => Qnum (this x))) in C. vm_compute in C. discriminate. Qed.
+Proof. destruct (cut_test_spec _ _ w_cut_before_fix_test) as (E & st & H & P & S & T).
+  exists E, st. split; [exact H|]. split; [exact P|]. split; [exact S|].
+  rewrite T. intros C. apply (f_equal (fun x => Qnum (this x))) in C. vm_compute in C. discriminate. Qed.
+(* the same input on the code (after the fix): the post state of the retained outcome has trace one *)
+Theorem mprocess_poststate_fixed_witness :
+  exists (E : ensemble QF) (st : rvec QF),
+    w_cut true = MOk (QEns _ E) /\
+    nth 0 (d_ps _ (en_dist _ E)) 0%Qc <> 0%Qc /\ nth_error (en_states _ E) 0 = Some st /\ (w_sd * st 0%nat)%Qc = 1%Qc.
+Proof. destruct (cut_test_spec _ _ w_cut_code_test) as (E & st & H & P & S & T).
+  exists E, st. split; [exact H|]. split; [exact P|]. split; [exact S|]. rewrite T. apply Qc_is_canon. reflexivity. Qed.
 
 (* ---- generate_mprocess(mode 1) *)
 Lemma V_real_unitary : chk_unitary V_real = true. Proof. vm_compute. reflexivity. Qed.
 Lemma V_cplx_unitary : chk_unitary V_cplx = true. Proof. vm_compute. reflexivity. Qed.
-(* AS CODED (rows, no conjugate) the instrument does not induce Pi = V diag(w) V^dagger; the docstring formula does *)
+(* AS CODED BEFORE fix povm-generate-mprocess-mode1-eigenvectors (rows, no conjugate) the instrument does not induce
+   Pi = V diag(w) V^dagger; the code after the fix (and the docstring formula) does *)
 Theorem generate_mprocess_mode1_refuted :
-  chk_induces (gm_mode1_cb QF 2 w_eig V_real) (eig_matrix V_real) = false /\
-  chk_induces (gm_mode1_cb QF 2 w_eig V_cplx) (eig_matrix V_cplx) = false /\
-  chk_induces (gm_mode1_cb_fixed QF 2 w_eig V_real) (eig_matrix V_real) = true /\
-  chk_induces (gm_mode1_cb_fixed QF 2 w_eig V_cplx) (eig_matrix V_cplx) = true.
+  chk_induces (gm_mode1_cb_prefix QF 2 w_eig V_real) (eig_matrix V_real) = false /\
+  chk_induces (gm_mode1_cb_prefix QF 2 w_eig V_cplx) (eig_matrix V_cplx) = false /\
+  chk_induces (gm_mode1_cb QF 2 w_eig V_real) (eig_matrix V_real) = true /\
+  chk_induces (gm_mode1_cb QF 2 w_eig V_cplx) (eig_matrix V_cplx) = true /\
+  chk_induces (gm_mode1_cb_doc QF 2 w_eig V_real) (eig_matrix V_real) = true /\
+  chk_induces (gm_mode1_cb_doc QF 2 w_eig V_cplx) (eig_matrix V_cplx) = true.
 Proof. vm_compute. repeat split; reflexivity. Qed.
+
+(* ---- instances showing that the hypotheses of the general theorems (Props/C06.v) are satisfiable, by evaluation *)
+From QV.Proofs Require Import C06_Main C06_GenMProcess.
+
+(* the rational unitaries have orthonormal columns, and eig_matrix is the spectral sum of Proofs/C06_GenMProcess *)
+Lemma chk_unitary_cols V : chk_unitary V = true -> cols_orthonormal QF 2 V.
+Proof. intros H k l Hk Hl. pose proof (ceqb_spec _ _ (alln_spec _ _ (alln_spec _ _ H k Hk) l Hl)) as E.
+  change (sumn 2 (fun i => cmul (CF QF) (zconj (V i k)) (V i l))) with (sumn 2 (fun i => zmul (zconj (V i k)) (V i l) : CF QF)).
+  rewrite E. destruct (Nat.eqb k l); reflexivity. Qed.
+Lemma V_real_cols : cols_orthonormal QF 2 V_real. Proof. exact (chk_unitary_cols _ V_real_unitary). Qed.
+Lemma V_cplx_cols : cols_orthonormal QF 2 V_cplx. Proof. exact (chk_unitary_cols _ V_cplx_unitary). Qed.
+Definition chk_meq2 (A B : cmat QF) : bool := alln 2 (fun i => alln 2 (fun j => ceqb (A i j) (B i j))).
+Lemma chk_meq2_spec A B : chk_meq2 A B = true -> meq 2 2 A B.
+Proof. intros H i j Hi Hj. exact (ceqb_spec _ _ (alln_spec _ _ (alln_spec _ _ H i Hi) j Hj)). Qed.
+Lemma eig_matrix_spectral_cplx : meq 2 2 (eig_matrix V_cplx) (spectral QF 2 w_eig V_cplx).
+Proof. apply chk_meq2_spec. vm_compute. reflexivity. Qed.
+Lemma eig_matrix_spectral_real : meq 2 2 (eig_matrix V_real) (spectral QF 2 w_eig V_real).
+Proof. apply chk_meq2_spec. vm_compute. reflexivity. Qed.
+(* a Hermitian square root: S = [[3/5, i/5],[-i/5, 2/5]], Pi := S S *)
+Definition S_herm : cmat QF := cmat_of_rows [[cq (q 3 5) (q 0 1); cq (q 0 1) (q 1 5)]; [cq (q 0 1) (q (-1) 5); cq (q 2 5) (q 0 1)]].
+Definition chk_herm2 (A : cmat QF) : bool := alln 2 (fun i => alln 2 (fun j => ceqb (A i j) (zconj (A j i)))).
+Lemma S_herm_hermitian : hermitian 2 S_herm.
+Proof. assert (H : chk_herm2 S_herm = true) by (vm_compute; reflexivity).
+  intros i j Hi Hj. exact (ceqb_spec _ _ (alln_spec _ _ (alln_spec _ _ H i Hi) j Hj)). Qed.
+
+(* the instruments A (3 outcomes, latest) and B (2 outcomes): the code composes them in both bracketings with a third copy of B *)
+Definition is_ok {A} (r : mres A) : bool := match r with MOk _ => true | MErr _ => false end.
+Lemma is_ok_spec {A} (r : mres A) : is_ok r = true -> exists x, r = MOk x.
+Proof. destruct r; [eexists; reflexivity|discriminate]. Qed.
+Definition w_qeval := qeval QF w_n w_sd w_atol w_eps true vz.
+Definition w_t1 : qtree QF := QN QF (QN QF (QL QF (QMProc QF mpA)) (QL QF (QMProc QF mpB))) (QL QF (QMProc QF mpB)).
+Definition w_t2 : qtree QF := QN QF (QL QF (QMProc QF mpA)) (QN QF (QL QF (QMProc QF mpB)) (QL QF (QMProc QF mpB))).
+Lemma w_t1_ok : is_ok (w_qeval w_t1) = true. Proof. vm_compute. reflexivity. Qed.
+Lemma w_t2_ok : is_ok (w_qeval w_t2) = true. Proof. vm_compute. reflexivity. Qed.
+Lemma w_t_linear : forallb (is_linear QF) (qflat QF w_t1) = true. Proof. reflexivity. Qed.
+Lemma w_t_flat : qflat QF w_t1 = qflat QF w_t2. Proof. reflexivity. Qed.
+
+(* no outcome of B on the witness state is cut; the POVM induced by B gives Born numbers above the truncation threshold that sum to one *)
+Lemma w_nocut : forallb (fun H => negb (mps_cut QF (mp_eps QF mpB) 1%Qc (w_sd * mv w_n H w_vec 0%nat)%Qc)) (mp_hss QF mpB) = true.
+Proof. vm_compute. reflexivity. Qed.
+Definition w_povmB : list (rvec QF) := to_povm QF w_sd hssB.
+Lemma forallb_kle (t : Qc) (l : list Qc) : forallb (fun p => kleb QF t p) l = true -> Forall (fun p => kle QF t p) l.
+Proof. induction l as [|p l IH]; cbn [forallb]; [constructor|]. rewrite andb_true_iff. intros [A B].
+  constructor; [now apply (k_leb QF)|now apply IH]. Qed.
+Lemma w_born_ge : Forall (fun p => kle QF w_atol p) (born_list QF w_n w_povmB w_vec).
+Proof. apply forallb_kle. vm_compute. reflexivity. Qed.
+Lemma w_born_sum : lsum QF (born_list QF w_n w_povmB w_vec) = 1%Qc.
+Proof. apply Qc_is_canon. vm_compute. reflexivity. Qed.
+
+(* the 2-qubit normalised Pauli basis is complete (hypothesis of the Kraus-concatenation theorem); soundness of the sweep from C02 *)
+From QV.Proofs Require C02_Conv.
+Lemma pauli2_complete : basis_complete 4 pauli2.
+Proof. apply (C02_Conv.complete_dec_sound QF). vm_compute. reflexivity. Qed.
